@@ -262,6 +262,7 @@ func doSearch(eng Engine, res *Result, name, prop, tier, variant string) {
 	debug.SetGCPercent(-1)
 	debug.SetMemoryLimit(6 << 30)
 	gcEvery := envInt("VERIF_GC_EVERY", 64)
+	crumb := os.Getenv("VERIF_BREADCRUMB")
 	for i := 0; i < maxRuns; i++ {
 		if i&7 == 0 && time.Now().After(deadline) {
 			break
@@ -272,6 +273,13 @@ func doSearch(eng Engine, res *Result, name, prop, tier, variant string) {
 		idx := uint64(worker + i*workers)
 		rs := RunSeed(base, idx)
 		plan := eng.Generate(rs, prop, tier)
+		if crumb != "" {
+			// a run that kills the process (memory corruption by the code under
+			// test) leaves its plan behind for the driver
+			pj, _ := json.Marshal(plan)
+			rp, _ := json.Marshal(Replay{Property: prop, Engine: name, Variant: variant, Seed: base, RunSeed: rs, Key: prop + "/fatal-crash", Msg: "the process died while executing this plan", Plan: pj})
+			_ = os.WriteFile(crumb, rp, 0o644)
+		}
 		o := guarded(eng, plan, prop, fmt.Sprintf("run_seed=%d", rs))
 		res.Runs++
 		res.Steps += int64(o.Steps)
